@@ -428,7 +428,7 @@ MonStep(Hh, B, T, e) ==
                             ELSE IF e.ev = "update" THEN {} ELSE C04_Frame(B, T)) ELSE {})
   \cup (IF Has("C05") THEN (IF upd THEN C05_Update(B, T, e.v, SumOver(Hh.value, PickedNow(B, T, e), LAMBDA r : Hh.value[r]))
                             ELSE IF e.ev = "update" THEN {} ELSE C05_Frame(B, T)) ELSE {})
-  \cup (IF Has("C06") THEN (IF upd THEN C06_Move(B, T, e.v, Hh.dt) \cup C06_Frame(B, T, TRUE, e.v) \cup C06_Arrived(T, Hn.arrived, e.v)
+  \cup (IF Has("C06") THEN (IF upd THEN C06_Move(B, T, e.v, Hh.dt, IF "num" \in DOMAIN e /\ "rt_now" \in DOMAIN e.num THEN e.num.rt_now ELSE <<>>) \cup C06_Frame(B, T, TRUE, e.v) \cup C06_Arrived(T, Hn.arrived, e.v)
                                        \cup (IF "num" \in DOMAIN e THEN C06_Odo(B, T, e.v, e.num) ELSE {})
                             ELSE C06_Frame(B, T, FALSE, "")) ELSE {})
   \cup (IF Has("C15") THEN C15_Step(B, T, e.ev, Hh.dt) ELSE {})
